@@ -202,7 +202,7 @@ PROPS = {
         "assumptions": ["fault-free cloud (the property's quantifier); E1; H_seq; batch <= cap, cap >= 1"],
         "level_text": "Theorems over all fault-free label sequences: |tracked| + max(|waiting|, in flight) <= cap per family, hence cloud count + asked <= cap at every assign/create; every unassign call carries only unowned, non-primary addresses; "
                       "a delete call starts only when canDispose (no owner, no live waiting request, not trunk/erdma); Dispose marks only unowned entries. Tied as C01; the quota/safety clauses are also evaluated on the implementation's own call log.",
-        "level_note": "Trusted as C01. The window between DeleteNetworkInterface's start and end (a popped request's worker may still take an address) is stated in DESIGN.md; the theorem is about the call instant.",
+        "level_note": "Trusted as C01. The quota theorems (c06_quota_assign, c06_quota_create) hold for fault-free runs from a slot with limit >= 1 in which an interface is created into an empty slot (false only after the delete race of c06_delete_quiet_refuted); they rest on the in-place filtering of the request queues by AllocatingRequests.Len() in Allocate and at the factory worker's loop head, which the model has and the replay exercises. The window between DeleteNetworkInterface's start and end (a popped request's worker may still take an address) is stated in DESIGN.md; the theorem is about the call instant.",
     },
     "C07": {
         "pkg": "./pool/", "test": "TestVerif_Pool", "n_quick": 400, "n_thorough": 20000, "retry_mismatch": True, "env": {"VERIF_PROP": "C07"},
